@@ -1,9 +1,11 @@
 (** The SMC-ABC sampler's round structure (elfi/methods/inference/samplers.py: SMC.set_objective /
     update / _init_new_round / _set_rejection_round / _extract_population / _update_objective) as an
     instance of the scheduler's abstract method, with one rejection sampler per round (C07, C04). *)
-From Coq Require Import List ZArith Arith Bool PrimFloat.
+From Coq Require Import List ZArith QArith Qabs Arith Bool PrimFloat.
 From Elfi Require Import Sched.Sched Sched.Reject.
+From Elfi Require Num.Quantile.
 Import ListNotations.
+Local Close Scope Q_scope.
 
 (** how the threshold of a round is set *)
 Inductive round_spec :=
@@ -88,13 +90,144 @@ End Instance.
 (** extract_result: the last population is appended when the result is extracted *)
 Definition all_populations (s : sstate) : list population := m_pops s ++ [pop_of (m_rej s)].
 
+(** ---- the numeric clauses (C07): prior support, importance weights, proposal covariance ----
+    _compute_weights_means_and_cov: [w = 1] for the first population, otherwise
+    [w = exp(prior.logpdf(x) - GMDistribution.logpdf(x, prev.means, prev.cov, prev.weights))];
+    [cov = 2 * diag(weighted_var(params, w))].  The mixture density and the weighted variance are the
+    C13 models ([Quantile.gm_pdf], [Quantile.weighted_var]); the prior density of a particle and the
+    normal densities [N(x_i; m_j, C_prev)] are oracle tables.  Nothing in these definitions knows
+    the units of a parameter: all comparisons are purely relative. *)
+(** a binary64 value [m * 2^e] as an exact rational (keeps the case files short) *)
+Definition qf (m e : Z) : Q :=
+  match e with
+  | Zneg p => Qmake m (Pos.pow 2 p)
+  | _ => Qmake (m * Z.pow 2 e) 1
+  end.
+
+Section Numeric.
+Open Scope Q_scope.
+
+(** |a - b| <= tol |a|: no absolute allowance, so the clause is the same in all units *)
+Definition rel_close (tol a b : Q) : bool := Qle_bool (Qabs (a - b)) (tol * Qabs a).
+
+(** the weight of a particle with prior density [prior] whose component densities under the previous
+    population's mixture are [dens], that population's weights being [wprev] *)
+Definition model_weight (prior : Q) (dens wprev : list Q) : option Q :=
+  match Quantile.gm_pdf dens (Some wprev) with
+  | Some q => if Qeq_bool q 0 then None else Some (Qred (prior / q))      (* exp(-(-inf)) = inf *)
+  | None => None
+  end.
+Definition spec_weight (prior : Q) (dens wprev : list Q) : Q := prior / Quantile.spec_pdf dens wprev.
+
+(** one diagonal entry of the new covariance *)
+Definition model_cov (col ws : list Q) : option Q :=
+  option_map (fun v => Qred (2 * v)) (Quantile.weighted_var col (Some ws)).
+Definition spec_cov (col ws : list Q) : Q := 2 * Quantile.spec_var (combine col ws).
+
+(** the binary64 evaluation of the variance is entitled to a few ulp times the conditioning
+    [V1 / (V1 - V2/V1)] of its denominator (weights (1-e, e) lose log10(1/e) digits in any order of
+    the operations) on top of the comparison tolerance *)
+Definition cov_tol (ws : list Q) : Q :=
+  let V1 := Quantile.qsum ws in
+  let V2 := Quantile.qsum (map Quantile.sq ws) in
+  Qred ((1 # 1000000000) + (64 # 1) * (23 # 100000000000000000) * (V1 / (V1 - V2 / V1))).
+Definition weight_tol : Q := 1 # 100000000.
+
+Record npop := {
+  q_support : list bool;           (* oracle: the independent log prior density of each particle is > -inf *)
+  q_prior : list (option Q);       (* oracle: that density (None: it underflows in binary64) *)
+  q_cols : list (list Q);          (* the particles, one list per parameter *)
+  q_weights : list (option Q);     (* the implementation's weights (None: not finite) *)
+  q_cov : list (list (option Q));  (* the implementation's covariance matrix, by rows *)
+  q_dens : list (list Q)           (* oracle: per particle the densities N(x_i; m_j, C_prev) under the previous
+                                      population's particles and covariance; [] for the first population *)
+}.
+
+Definition finite_weights (p : npop) : option (list Q) :=
+  fold_right (fun w acc => match w, acc with Some v, Some l => Some (v :: l) | _, _ => None end) (Some []) (q_weights p).
+
+Fixpoint zip3 {A B C} (a : list A) (b : list B) (c : list C) : list (A * B * C) :=
+  match a, b, c with
+  | x :: a', y :: b', z :: c' => (x, y, z) :: zip3 a' b' c'
+  | _, _, _ => []
+  end.
+
+(** weights of one population against a weight function [f prior dens] *)
+Definition weights_by (f : Q -> list Q -> option Q) (p : npop) (ws : list Q) : bool :=
+  (length (q_prior p) =? length ws)%nat && (length (q_dens p) =? length ws)%nat
+  && forallb (fun t => match t with
+                       | (w, Some prior, dens) =>
+                           match f prior dens with Some e => rel_close weight_tol e w | None => false end
+                       | (_, None, _) => true
+                       end) (zip3 ws (q_prior p) (q_dens p)).
+
+(** covariance rows against a variance function: entry (k, k) close to [f col_k], all others exactly 0 *)
+Definition cov_by (f : list Q -> option Q) (tol : Q) (p : npop) : bool :=
+  (length (q_cov p) =? length (q_cols p))%nat
+  && forallb (fun kr =>
+       let '(k, row) := kr in
+       (length row =? length (q_cols p))%nat
+       && forallb (fun je =>
+            let '(j, e) := je in
+            match e with
+            | Some c => if (j =? k)%nat
+                        then match f (nth k (q_cols p) []) with Some v => rel_close tol v c | None => true end
+                        else Qeq_bool c 0
+            | None => false
+            end) (combine (seq 0 (length row)) row))
+     (combine (seq 0 (length (q_cov p))) (q_cov p)).
+
+Definition shape_ok (n : nat) (p : npop) : bool :=
+  (length (q_support p) =? n)%nat && (length (q_weights p) =? n)%nat
+  && forallb (fun col => (length col =? n)%nat) (q_cols p) && negb (length (q_cols p) =? 0)%nat.
+
+(** the property's numeric statement for one population; [prev]: the previous population's weights *)
+Definition npop_ok (n : nat) (prev : option (list Q)) (p : npop) : bool :=
+  shape_ok n p
+  && forallb (fun b => b) (q_support p)                                  (* positive prior density *)
+  && match finite_weights p with
+     | None => false
+     | Some ws =>
+         forallb (Qle_bool 0) ws
+         && match prev with
+            | None => forallb (fun w => Qeq_bool w 1) ws                   (* first population: weights 1 *)
+            | Some wprev => weights_by (fun prior dens => Some (spec_weight prior dens wprev)) p ws
+            end
+         && (if Quantile.var_defined (combine (nth 0 (q_cols p) []) ws)
+             then cov_by (fun col => Some (spec_cov col ws)) (cov_tol ws) p
+             else true)
+     end.
+
+(** what the code computes (C13 models of GMDistribution.pdf and weighted_var), same tolerances *)
+Definition npop_agree (prev : option (list Q)) (p : npop) : bool :=
+  match finite_weights p with
+  | None => true                                                         (* nan/inf weights: nothing to compare *)
+  | Some ws =>
+      match prev with
+      | None => forallb (fun w => Qeq_bool w 1) ws
+      | Some wprev => weights_by (fun prior dens => model_weight prior dens wprev) p ws
+      end
+      && cov_by (fun col => model_cov col ws) (cov_tol ws) p
+  end.
+
+Fixpoint over_pops (f : option (list Q) -> npop -> bool) (prev : option (list Q)) (ps : list npop) : bool :=
+  match ps with
+  | [] => true
+  | p :: r => f prev p && over_pops f (finite_weights p) r
+  end.
+
+Definition num_ok (n : nat) (ps : list npop) : bool := over_pops (npop_ok n) None ps.
+Definition num_agree (ps : list npop) : bool := over_pops npop_agree None ps.
+End Numeric.
+
 (** ---- correspondence-check interface (C07) ---- *)
 Record case := {
   v_n : nat; v_b : nat; v_maxp : nat;
   v_rounds : list round_spec;               (* thresholds in force (selected quantiles already resolved) *)
   v_table : list (list draw);               (* every consumed batch, by batch index *)
   v_pops : list population;                 (* what the implementation returned, per population *)
-  v_n_sim : nat                             (* SmcSample.n_sim *)
+  v_n_sim : nat;                            (* SmcSample.n_sim *)
+  v_num : list npop                         (* numeric side of every population *)
 }.
 
 Definition pop_eqb (a b : population) : bool :=
@@ -119,7 +252,8 @@ Definition agree (c : case) : bool :=
   match model_run c with
   | Some s => pops_eqb (all_populations s) (v_pops c) && Nat.eqb (m_total s * v_b c) (v_n_sim c)
   | None => false
-  end.
+  end
+  && num_agree (v_num c).
 
 (** the structural clauses of the property on the implementation's populations *)
 Definition round_threshold (r : round_spec) : option edisc :=
@@ -144,4 +278,7 @@ Definition ok (c : case) : bool :=
   pops_ok (v_n c) (v_rounds c) (v_pops c)
   (* n_sim is the total number of simulations consumed over all rounds *)
   && Nat.eqb (v_n_sim c) (fold_right (fun p a => p_n_sim p + a) 0 (v_pops c))
-  && Nat.eqb (v_n_sim c) (v_b c * length (v_table c)).
+  && Nat.eqb (v_n_sim c) (v_b c * length (v_table c))
+  (* prior support, importance weights and proposal covariance of every population *)
+  && Nat.eqb (length (v_num c)) (length (v_pops c))
+  && num_ok (v_n c) (v_num c).
